@@ -227,31 +227,61 @@ fn repair_nonascii_eol_blank(input: &str) -> Option<String> {
     }
 }
 
-/// Insert a blank after a parenthesized literal that is directly followed by text.
+/// Parentheses around a literal that is directly followed by a non-blank character (text, `.`, `[`):
+/// counterfactual = the literal replaced by an identifier (the printer keeps parentheses around identifiers).
 fn repair_paren_literal_then_text(input: &str) -> Option<String> {
     let root = tree::parse_ok(input)?;
-    let mut inserts: Vec<usize> = vec![];
-    tree::walk(&root, &mut |n, off, _| {
-        if n.kind() == K::Parenthesized {
-            let end = off + n.len();
-            if let Some(c) = input[end..].chars().next() {
-                if !c.is_whitespace() && !matches!(c, ')' | ']' | '}' | ',' | ';') {
-                    inserts.push(end);
+    let mut edits: Vec<(usize, usize)> = vec![];
+    tree::walk(&root, &mut |n, off, anc| {
+        if n.kind() != K::Parenthesized {
+            return;
+        }
+        if anc.last().map(|p| p.kind() == K::Parenthesized).unwrap_or(false) {
+            return; // handled from the outermost layer
+        }
+        let end = off + n.len();
+        let Some(c) = input[end..].chars().next() else { return };
+        if c.is_whitespace() || matches!(c, ')' | ']' | '}' | ',' | ';') {
+            return;
+        }
+        // innermost non-parenthesized expression
+        let mut cur = n;
+        let mut cur_off = off;
+        loop {
+            let mut o = cur_off;
+            let mut next = None;
+            for ch in cur.children() {
+                if !matches!(ch.kind(), K::LeftParen | K::RightParen | K::Space | K::LineComment | K::BlockComment) {
+                    next = Some((ch, o));
+                    break;
                 }
+                o += ch.len();
+            }
+            match next {
+                Some((ch, o)) if ch.kind() == K::Parenthesized => {
+                    cur = ch;
+                    cur_off = o;
+                }
+                Some((ch, o)) => {
+                    if matches!(ch.kind(), K::Int | K::Float | K::Numeric | K::Str | K::Bool | K::None | K::Auto) {
+                        edits.push((o, o + ch.len()));
+                    }
+                    break;
+                }
+                None => break,
             }
         }
     });
-    if inserts.is_empty() {
+    if edits.is_empty() {
         return None;
     }
-    inserts.sort_unstable();
-    inserts.dedup();
-    let mut out = String::with_capacity(input.len() + inserts.len());
+    edits.sort_unstable();
+    let mut out = String::new();
     let mut last = 0;
-    for p in inserts {
-        out.push_str(&input[last..p]);
-        out.push(' ');
-        last = p;
+    for (a, b) in edits {
+        out.push_str(&input[last..a]);
+        out.push_str("zz");
+        last = b;
     }
     out.push_str(&input[last..]);
     Some(out)
